@@ -376,6 +376,44 @@ fn run(sh: &mut Shard) {
             case(sh, "postfix", &printer::join_spaced(&printer::tokens(&p)), &p, true);
         }
     }
+    // (2b) how far a prefix operator extends is not documented (U13), but it must not depend on WHAT the
+    // first operand is: `P L O x` has the same shape for every kind of leaf L
+    {
+        let leaf_texts = ["a", "2", "2.5", "\"s\"", "f(1)", "b[0]", "ja", "[1]", "(a)"];
+        for p in ["-", "!"] {
+            for o in all_infix_ops() {
+                for tail in ["x", "3", "x + 1"] {
+                    if !sh.mine() {
+                        continue;
+                    }
+                    let texts: Vec<String> = leaf_texts.iter().map(|l| format!("{p} {l} {} {tail}", opname(&o))).collect();
+                    sh.begin(&|| texts.join("  |  "));
+                    sh.count("family:prefix-shape");
+                    sh.nontrivial(&texts[0]);
+                    let shapes: Vec<Option<String>> = texts
+                        .iter()
+                        .zip(leaf_texts.iter())
+                        .map(|(t, _)| match parse_guarded(t) {
+                            Parsed::Ok(ast) => Some(shape_of(&ast)),
+                            _ => None,
+                        })
+                        .collect();
+                    if let Some(first) = shapes[0].clone() {
+                        for (i, s) in shapes.iter().enumerate() {
+                            if s.as_ref() != Some(&first) {
+                                sh.violation(
+                                    "tree",
+                                    json!({"family": "prefix-shape", "text": texts[i], "expected_tree": format!("the shape of {:?}: {first}", texts[0])}),
+                                    format!("{:?} groups as {:?} but {:?} groups as {first}: the tree depends on the kind of operand", texts[i], s, texts[0]),
+                                );
+                                break;
+                            }
+                        }
+                    }
+                }
+            }
+        }
+    }
     // (4) op-assign sugar and else-if chains
     let mut sugar_ops = ARITH_OPS.to_vec();
     sugar_ops.extend(CMP_OPS.iter().cloned());
@@ -461,8 +499,43 @@ fn run(sh: &mut Shard) {
     }
 }
 
+/// The tree with every leaf operand replaced by a placeholder (only the nesting of operators remains).
+fn shape_of(ast: &[Stmt]) -> String {
+    fn e(x: &Expr) -> String {
+        match x {
+            Expr::Infix { left, operator, right } => format!("({} {} {})", e(left), opname(operator), e(right)),
+            Expr::Prefix { operator, right } => format!("({}{})", opname(operator), e(right)),
+            _ => "_".to_string(),
+        }
+    }
+    ast.iter()
+        .map(|s| match s {
+            Stmt::Expr(x) => e(x),
+            other => format!("{other:?}"),
+        })
+        .collect::<Vec<_>>()
+        .join("; ")
+}
+
 fn replay(sh: &mut Shard, case: &Value) {
     sh.mine();
+    if case["family"].as_str() == Some("prefix-shape") {
+        let text = case["text"].as_str().unwrap_or("");
+        println!("text: {text}\n recorded: {}", case["expected_tree"]);
+        if let Parsed::Ok(ast) = parse_guarded(text) {
+            println!(" shape now: {}", shape_of(&ast));
+        }
+        // re-run the family
+        let mut probe = Shard::new("C07", sh.cfg.clone(), 0, 1);
+        probe.known.clear();
+        run(&mut probe);
+        for v in probe.violations {
+            if v["case"]["family"].as_str() == Some("prefix-shape") {
+                sh.violations.push(v);
+            }
+        }
+        return;
+    }
     let text = case["text"].as_str().unwrap_or("");
     let expected = case["expected_tree"].as_str().unwrap_or("");
     match parse_guarded(text) {
